@@ -144,7 +144,8 @@ def check(prop, tier, repo, seed):
         try:
             import kani_run as K
             jobs = int(os.environ.get("VERIF_JOBS", "16"))
-            kani_results = K.run(cfg["kani"], repo=repo, tier=tier, jobs=jobs, timeout_s=int(cfg.get("kani_timeout", 900)))
+            sel = cfg["kani"] if tier == "thorough" else cfg.get("kani_quick", cfg["kani"])
+            kani_results = K.run(sel, repo=repo, tier=tier, jobs=jobs, timeout_s=int(cfg.get("kani_timeout", 900)))
         except Exception as e:
             undecided.append("kani families could not run: %s" % str(e)[-400:])
         fams = {}
